@@ -43,6 +43,23 @@ theorem coherent_hosts (o : Oracle) (ops : List Op) :
     simp only [hs, Option.map_some, normalize, buildCluster, Option.some.injEq, LiveCluster.mk.injEq, true_and]
     exact (dedup_id _ (by rw [map_clamp_addr]; exact hnd)).symm
 
+/-- **coherent (host sets, exact)**: when every host weight supplied at run time lies inside the regenerated bounds
+`[MinHostWeight, MaxHostWeight]` (and every xDS endpoint carries a load-balancing weight — the conversion clamps it into the same
+bounds), the live cluster IS the rebuilt one, weights included: the clamp of `coherent_hosts` only matters for out-of-range
+weights, which a runtime update keeps raw and a fresh start clamps. -/
+theorem coherent_hosts_exact (o : Oracle) (ops : List Op) (hops : ∀ op ∈ ops, opOk op) :
+    (run o ops).clusters = rebuildClusters (dump (run o ops)) := by
+  funext n
+  have hI := inv_run o ops
+  have hW := winv_run o ops hops
+  simp only [rebuildClusters, dump]
+  cases hc : (run o ops).clusters n with
+  | none => simp [hI.c_none n hc]
+  | some lc =>
+    obtain ⟨hs, hnd⟩ := hI.c_some n lc hc
+    simp only [hs, Option.map_some, buildCluster, map_clamp_id (hW n lc hc), Option.some.injEq]
+    rw [dedup_id _ hnd]
+
 /-- live host sets are address-distinct lists after every history. -/
 theorem hosts_distinct (o : Oracle) (ops : List Op) (n : String) (lc : LiveCluster)
     (h : (run o ops).clusters n = some lc) : (lc.hosts.map (·.addr)).Nodup :=
@@ -410,6 +427,12 @@ example : results exOracle init lhist = [true, true, false, false, false, true, 
 example : (run exOracle lhist).listeners "l1" = some ⟨{ lcA with sf := ["vfb", "vfa"], idle := 2 }, ["vfb", "vfa"], 1, 2⟩ := by decide
 example : ((run exOracle lhist).lstore "127.0.0.1:1003").map (·.name) = some "127.0.0.1:1003" := by decide
 example : (run exOracle (lhist ++ [.deleteListener "l1"])).lstore "l1" = none := by decide
+-- coherent_hosts_exact: a history inside the bounds, and one outside (weight 0 kept raw live, clamped on restart)
+example : opOk (.updateHosts "c" [h1]) ∧ opOk (.xdsEndpoints [("c", [[⟨"10.0.0.1:1", some 300⟩]])]) :=
+  ⟨by intro h hm; simp at hm; subst hm; exact ⟨by decide, by decide⟩, by intro a ha loc hl x hx; simp at ha; subst ha; simp at hl; subst hl; simp at hx; subst hx; rfl⟩
+example : (run exOracle [.addOrUpdateCluster "c" 1 [], .updateHosts "c" [h2]]).clusters "c" = some ⟨1, [h2]⟩ ∧
+    rebuildClusters (dump (run exOracle [.addOrUpdateCluster "c" 1 [], .updateHosts "c" [h2]])) "c" = some ⟨1, [{ h2 with weight := 1 }]⟩ := by
+  decide
 end examples
 
 end MosnVerif.Props.C12
